@@ -55,7 +55,8 @@ def hostile_pool():
             b'', b'a', b'abc', (), (1,), (1, 2), (1, 2, 3), (1.5, NAN), ('a', 'b'), (None, 2), [], [1], [1, 2, 3], ['a'],
             [len], {}, {'k': 1}, dt.date(2020, 1, 1), dt.datetime(2020, 1, 1), dt.datetime(2020, 1, 1, 0, 0, 1),
             (dt.date(2020, 1, 1), dt.date(2020, 1, 2)), (dt.datetime(2020, 1, 1), dt.datetime(2020, 1, 2)),
-            (dt.date(2020, 1, 2), dt.date(2020, 1, 1)), len, int, str, lambda: 1, object(), '#abc', '#aabbcc', '#abcd', 'red',
+            (dt.date(2020, 1, 2), dt.date(2020, 1, 1)), [dt.date(2020, 1, 1), dt.date(2020, 1, 2)],
+            [dt.datetime(2020, 1, 1), dt.datetime(2020, 1, 2)], [0.25, 0.75], len, int, str, lambda: 1, object(), '#abc', '#aabbcc', '#abcd', 'red',
             set(), frozenset([1]), (2, 1), (0.25, 0.75), 'zzz', 'a1']
 
 
